@@ -43,7 +43,7 @@ type accessorSum struct {
 
 func containerAccessors(p *Prog) map[string]*accessorSum {
 	res := map[string]*accessorSum{}
-	for _, k := range p.methodsOf(pkgDI, "Container") {
+	for _, k := range containerMethodKeys(p) {
 		fi := p.Funcs[k]
 		info := fi.Pkg.TypesInfo
 		s := &accessorSum{fi: fi, assigns: map[string]bool{}, calls: map[string]bool{}}
@@ -59,7 +59,7 @@ func containerAccessors(p *Prog) map[string]*accessorSum {
 				}
 			case *ast.CallExpr:
 				for _, ck := range p.calleeKeys(fi.Pkg, n) {
-					if strings.HasPrefix(ck, "(*"+pkgDI+".Container).") {
+					if isContainerMethod(p, ck) {
 						s.calls[ck] = true
 					}
 				}
@@ -111,7 +111,7 @@ func accessorCallsIn(p *Prog, fi *FuncInfo, n ast.Node, lits bool) map[string]bo
 	visit := func(x ast.Node) bool {
 		if c, ok := x.(*ast.CallExpr); ok {
 			for _, ck := range p.calleeKeys(fi.Pkg, c) {
-				if strings.HasPrefix(ck, "(*"+pkgDI+".Container).") {
+				if isContainerMethod(p, ck) {
 					res[ck] = true
 				}
 			}
@@ -190,7 +190,7 @@ func c15Singletons(p *Prog, r *Report) {
 			})
 		}
 		cg := p.CallGraph()
-		reach := cg.Reachable(w.entries, func(k string) bool { return strings.HasPrefix(k, "(*"+pkgDI+".Container).") })
+		reach := cg.Reachable(w.entries, func(k string) bool { return isContainerMethod(p, k) })
 		for k := range reach {
 			fi := p.Funcs[k]
 			if fi == nil || fi.Decl.Body == nil || k == w.ctor {
@@ -751,4 +751,58 @@ func c15Lifecycle(p *Prog, r *Report) {
 		})
 	}
 	c15RunFirst(p, r, "C15.d")
+}
+
+// containerTypes: di.Container and the struct types of the package it embeds (layers whose accessors are promoted).
+func containerTypes(p *Prog) map[string]bool {
+	res := map[string]bool{"Container": true}
+	pkg := p.Pkg(pkgDI)
+	if pkg == nil {
+		return res
+	}
+	var walk func(name string, depth int)
+	walk = func(name string, depth int) {
+		o := pkg.Types.Scope().Lookup(name)
+		if o == nil || depth > 4 {
+			return
+		}
+		st, ok := o.Type().Underlying().(*types.Struct)
+		if !ok {
+			return
+		}
+		for i := 0; i < st.NumFields(); i++ {
+			f := st.Field(i)
+			if !f.Embedded() {
+				continue
+			}
+			t := f.Type()
+			if pt, ok := t.(*types.Pointer); ok {
+				t = pt.Elem()
+			}
+			if nt, ok := t.(*types.Named); ok && nt.Obj().Pkg() == pkg.Types && !res[nt.Obj().Name()] {
+				res[nt.Obj().Name()] = true
+				walk(nt.Obj().Name(), depth+1)
+			}
+		}
+	}
+	walk("Container", 0)
+	return res
+}
+
+func containerMethodKeys(p *Prog) []string {
+	var res []string
+	for t := range containerTypes(p) {
+		res = append(res, p.methodsOf(pkgDI, t)...)
+	}
+	sort.Strings(res)
+	return res
+}
+
+func isContainerMethod(p *Prog, key string) bool {
+	for t := range containerTypes(p) {
+		if strings.HasPrefix(key, "(*"+pkgDI+"."+t+").") || strings.HasPrefix(key, "("+pkgDI+"."+t+").") {
+			return true
+		}
+	}
+	return false
 }
